@@ -67,10 +67,31 @@ def run(chk):
             if isinstance(n, ast.Attribute) and n.attr == "_compressobj" and isinstance(n.ctx, ast.Load) and fn.name != "_get_compressor":
                 chk.violation("C11.lock", n, "self._compressobj", f"read in {fn.qualname}", "the shared deflate context is used without going through the locked accessor")
     # ---- C11.shield (T12) --------------------------------------------------------------------------------------
-    al = repo.func(WM, f"{W}._send_compressed_frame_async_locked")
-    sites = prog.call_sites(repo, al, [WM])
-    if len(sites) != 1:
-        chk.violation("C11.shield", al, "_send_compressed_frame_async_locked(...)", f"{len(sites)} call sites", "the compress-and-send coroutine must have exactly one, shielded, call site")
+    # the coroutines that suspend between advancing the shared deflate context and writing its output: those that await
+    # the compressor (which may hand the payload to the executor), directly or through another method of the writer
+    susp = {}
+    for fn in wc.methods.values():
+        aw = [a for a in prog.awaits_in(fn.node) if isinstance(a.value, ast.Call) and isinstance(a.value.func, ast.Attribute) and a.value.func.attr == "compress"]
+        if aw:
+            susp[fn.name] = fn
+    grew = True
+    while grew:
+        grew = False
+        for fn in wc.methods.values():
+            if fn.name in susp or fn.name == "send_frame":
+                continue
+            for a in prog.awaits_in(fn.node):
+                t = prog.resolve_call(repo, a.value) if isinstance(a.value, ast.Call) else None
+                if t is not None and t.name in susp and t.cls is fn.cls:
+                    susp[fn.name] = fn
+                    grew = True
+    if not susp:
+        raise AnalysisError("C11.shield: no coroutine of the writer awaits the compressor")
+    als = list(susp.values())
+    al = als[0]
+    sites = [c for f in als for c in prog.call_sites(repo, f, [WM]) if c.fn is None or c.fn.name not in susp]
+    if len(sites) < 1:
+        chk.violation("C11.shield", al, f"{al.name}(...)", "0 call sites", "the compress-and-send coroutine has no call site")
     for call in sites:
         if isinstance(call.parent, ast.Await):
             chk.violation("C11.shield", call, K.short(call), "Task + asyncio.shield", "compress-and-send is awaited directly: cancelling the sender between compression and write corrupts the shared context")
@@ -86,7 +107,7 @@ def run(chk):
         else:
             chk.violation("C11.shield", call, K.short(call), f"tasks={len(tasks)} shield={len(shields)} kept={kept}", "the compress-and-send task is not shielded / not kept referenced")
     # the locked coroutine holds the lock around compressor access and write
-    wcalls = [c for c, _b in K.exprs(al, "self._write_websocket_frame(...)")]
+    wcalls = [c for f in als for c, _b in K.exprs(f, "self._write_websocket_frame(...)")]
     if wcalls and all(under_lock(c) for c in wcalls):
         chk.ok("C11.lock", wcalls[0], "the executor-compressed frame is written while the send lock is still held")
     else:
